@@ -175,6 +175,18 @@ class RecordManager:
                 " In the future this will fail"
             )
 
+        if question is not None:
+            # Records that have expired but have not been purged yet are not
+            # handed to the new listener below. Left in the cache, they would be
+            # refreshed in place by the next answer, which is not reported as a new
+            # record, and the listener would never learn about them: purge them
+            # first, as the periodic cleanup would within the next ten seconds.
+            now = current_time_millis()
+            expired = self.cache.async_expire(now)
+            if expired:
+                self.async_updates(now, [RecordUpdate(record, record) for record in expired])
+                self.async_updates_complete(False)
+
         self.listeners.add(listener)
 
         if question is None:
